@@ -144,12 +144,12 @@ CLAIMED = {
    technique="Coq proof (store-order invariant over histories) + per-write closure monitor and differential correspondence vs Go", design="6/C17"),
  "C15": dict(
    text="Theorems (Props/C15.v): for every reachable log and option combination the iterator never panics, closes the channel on every "
-        "success (also amount 0), reports unknown upper bounds as errors; for the hash-tiebreak ordering the emitted list is "
+        "success (also amount 0), reports unknown upper bounds as errors; for every total ordering (hash-tiebreak; default on tie-free logs) the emitted list is "
         "iter_post(cut(R)) where R is proved to be exactly the causal past (inclusive) of the upper bounds inside the log, newest "
         "first, each entry once - for one or several, causally related or unrelated bounds - and cut/iter_post are read off as: all "
         "of R, its first k, R down to the lower bound (inclusive/exclusive), and the k entries nearest the lower bound. Proved via "
-        "'a bounded traversal is a prefix of the full traversal'. For the default ordering with explicit LTE/LT bounds the "
-        "functional half is covered by the correspondence harness only (partial). Tie: iterator ops inside random histories, "
+        "'a bounded traversal is a prefix of the full traversal' and 'LastWriteWins sorts like its irreflexive twin'. "
+        "Tie: iterator ops inside random histories, "
         "exact output comparison, brute-force range monitor, drained channel with watchdog.",
    technique="Coq proof (traversal prefix lemma + causal-past characterisation) + differential correspondence vs Go", design="6/C15"),
  "C16": dict(
